@@ -244,6 +244,8 @@ def _q_put(self, item, block=True, timeout=None):
     if s is None:
         return _real["put"](self, item, block, timeout)
     s.maybe_preempt("Queue.put")
+    if block and timeout is not None and timeout < 0:
+        raise ValueError("'timeout' must be a non-negative number")        # as the stdlib does, whatever the queue holds
     if self.maxsize > 0 and self._qsize() >= self.maxsize:
         if not block:
             raise _queue.Full
@@ -259,6 +261,8 @@ def _q_get(self, block=True, timeout=None):
     if s is None:
         return _real["get"](self, block, timeout)
     s.maybe_preempt("Queue.get")
+    if block and timeout is not None and timeout < 0:
+        raise ValueError("'timeout' must be a non-negative number")
     if not self._qsize():
         if not block:
             raise _queue.Empty
@@ -414,6 +418,8 @@ def _sleep(d):
     s = _sim()
     if s is None:
         return _real["sleep"](d)
+    if d < 0:
+        raise ValueError("sleep length must be non-negative")
     s.sleep(d)
 
 
